@@ -132,7 +132,9 @@ type fieldErr struct{ tags []string }
 
 func (e fieldErr) Error() string { return "fieldErr" + fmt.Sprint(e.tags) }
 
-var errs = []error{errors.New("e0"), errors.New("e1"), errors.New("e2"), sliceErr{"s3"}, sliceErr{"s4"}, fieldErr{[]string{"s5"}}}
+// (a block error of a rejected downstream call, bare and wrapped, is an error like any other for the entry that reports it)
+var errs = []error{errors.New("e0"), errors.New("e1"), errors.New("e2"), sliceErr{"s3"}, sliceErr{"s4"}, fieldErr{[]string{"s5"}},
+	base.NewBlockErrorWithMessage(base.BlockTypeFlow, "downstream rejected"), fmt.Errorf("calling downstream: %w", base.NewBlockErrorWithMessage(base.BlockTypeIsolation, "downstream busy"))}
 
 func sameErr(a, b error) bool { return reflect.DeepEqual(a, b) && fmt.Sprint(a) == fmt.Sprint(b) }
 
